@@ -28,7 +28,7 @@ PROFILE = {
 }
 
 
-E2_PROFILE = {'max_pods': 2, 'max_racks': 3, 'weights': {'app': 14, 'rmsrv': 2, 'srv': 2, 'prio': 2, 'reparent': 3, 'cellev': 3, 'restart': 2, 'resize': 2}, 'lease': False}
+E2_PROFILE = {'max_pods': 2, 'max_racks': 3, 'weights': {'app': 14, 'rmsrv': 2, 'srv': 2, 'prio': 2, 'reparent': 3, 'cellev': 3, 'restart': 2, 'resize': 2, 'bouncemove': 4}, 'force': ['bouncemove'], 'lease': False}
 
 
 def strategy(tier):
